@@ -63,28 +63,28 @@ type ViolGroup struct {
 }
 
 type JobResult struct {
-	Job       *Job
-	Paths     int
-	Pruned    int
-	Outcomes  map[string]int
-	Viols     map[string]*ViolGroup
-	Validate  []ReplayCase
-	Samples   []ReplayCase
-	Reach     map[string]bool
-	Inconc    []string
-	St        ExStats
-	Queries   [4]int // total, sat, unsat, unknown
-	XQueries  int
-	SolverT   time.Duration
-	Steps     int
-	MaxSteps  int
-	MaxAlloc  int
-	Funcs     map[string]int
-	SubJobs   []*Job
-	Wall      time.Duration
-	Asserts   int
-	Donated   int
-	Aborted   bool
+	Job      *Job
+	Paths    int
+	Pruned   int
+	Outcomes map[string]int
+	Viols    map[string]*ViolGroup
+	Validate []ReplayCase
+	Samples  []ReplayCase
+	Reach    map[string]bool
+	Inconc   []string
+	St       ExStats
+	Queries  [4]int // total, sat, unsat, unknown
+	XQueries int
+	SolverT  time.Duration
+	Steps    int
+	MaxSteps int
+	MaxAlloc int
+	Funcs    map[string]int
+	SubJobs  []*Job
+	Wall     time.Duration
+	Asserts  int
+	Donated  int
+	Aborted  bool
 }
 
 type Worker struct {
@@ -106,6 +106,7 @@ type RunConfig struct {
 	TLimitMs    int
 	MaxPaths    int
 	StopAfter   time.Duration
+	HardStop    time.Duration // wall-clock limit of the whole exploration, violation or not
 }
 
 func newWorker(id int, w *World, cfg *RunConfig) (*Worker, error) {
@@ -364,6 +365,13 @@ func (wk *Worker) runJob(job *Job) *JobResult {
 				break
 			}
 		}
+		if wk.pool != nil && wk.cfg.HardStop > 0 && time.Since(wk.pool.start) > wk.cfg.HardStop {
+			// no verdict within the wall-clock limit of the tier: reported as
+			// inconclusive, never as a pass
+			atomic.StoreInt32(&wk.pool.stopped, 1)
+			res.Inconc = append(res.Inconc, fmt.Sprintf("exploration not finished within %v (job %s%v had explored %d paths)", wk.cfg.HardStop, job.Fn, job.Args, res.Paths))
+			break
+		}
 		if wk.cfg.MaxPaths > 0 && res.Paths >= wk.cfg.MaxPaths {
 			res.Inconc = append(res.Inconc, "max paths reached")
 			break
@@ -432,11 +440,11 @@ type Pool struct {
 	violFound int32
 	stopped   int32
 	mu        sync.Mutex
-	cond    *sync.Cond
-	queue   []*Job
-	pending int // queued + running
-	idle    int
-	results []*JobResult
+	cond      *sync.Cond
+	queue     []*Job
+	pending   int // queued + running
+	idle      int
+	results   []*JobResult
 }
 
 func (p *Pool) idleWorkers() int {
